@@ -246,7 +246,7 @@ class ByteInterp(VecInterp):
             r = a[0]
             if isinstance(r, dict) and r.get("__adt") == "core::result::Result":
                 if r["__var"] == "Ok":
-                    return {"__adt": "core::ops::control_flow::ControlFlow", "__var": "Continue", 0: r.get(0), "0": r.get(0)}
+                    return {"__adt": "core::ops::control_flow::ControlFlow", "__var": "Continue", 0: r.get(0, r.get("0")), "0": r.get(0, r.get("0"))}
                 return {"__adt": "core::ops::control_flow::ControlFlow", "__var": "Break", 0: r, "0": r}
             raise Undecidable("? on %r" % (r,))
         if decl.endswith("ops::try_trait::FromResidual::from_residual"):
